@@ -405,6 +405,12 @@ impl BlockFilterRpc for BlockFilterRpcImpl {
         command: Option<SetScriptsCommand>,
     ) -> Result<()> {
         let mut matched_blocks = self.swc.matched_blocks().write().expect("poisoned");
+        // `partial` / `delete` with an empty list change nothing in the storage (the pending
+        // matched blocks records are kept), so the pending matched blocks in memory have to be
+        // kept too: the filter syncing relies on them to know if a range is finished.
+        if scripts.is_empty() && !matches!(command, None | Some(SetScriptsCommand::All)) {
+            return Ok(());
+        }
         let scripts = scripts.into_iter().map(Into::into).collect();
         self.swc
             .storage()
